@@ -6,36 +6,40 @@ COMMON_ASSUME = [
 NOT_APPLICABLE = {}
 PROPS = {
     "C10": {
-        "claim": "TODO", "note": "TODO",
+        "claim": 'Coq theorems (closed, no axioms): annotate_type (both modes) returns every inhabitant of t unchanged; M^-1 (M v) = v at every type; coercion at the same type never fails. The annotate model is a transcription of IDLValue::annotate_type and is compared with it on inhabitants, near misses (wrong number width, missing field, unknown tag, wrong reference kind) and mutated types in both modes; a direct predicate checks annotate -> typed encode -> decode at t and with no expected type returns the value.',
+        "note": 'Known finding (listed, not fixed): a func/service reference whose signature mentions a record type that reaches itself through record fields does not decode at its own type (replace_empty is applied to the wire side only). Number literals (IDLValue::Number) and the f64->f32 literal conversion are outside the model.',
         "props_file": "props/C10.v",
         "shards": (4, 16),
-        "rule": "TODO",
+        "rule": 'cases: per round a random environment and 1-3 (type, inhabitant) pairs: annotate in both modes, the round-trip predicate, a near-miss value in both modes, and annotation at a mutated type in both modes. Non-trivial = value with more than 2 nodes, any near miss, any mutated type.',
         "assumptions": COMMON_ASSUME,
-        "trusted_base": [],
+        "trusted_base": ['modelled, not verified: binread (header parser driver), serde visitors of IDLValue, HashMap, RecursionDepth/stacker (not modelled), std::str::from_utf8 (modelled by utf8_valid)'],
     },
     "C04": {
-        "claim": "TODO", "note": "TODO",
+        "claim": "Coq theorem (closed, no axioms), for every closed productive class-free environment with unique field ids: if t <: t' in the co-inductive subtype relation then every value of t coerces to t' (never 'no coercion', never an error) and the result is a value of t' (soundness of subtyping for coercion + well-typedness, spec section Properties); the checker the implementation is compared with decides that relation. On the implementation: whenever subtype accepts (t,t') (random upgrade steps and chains over recursive environments) a generated inhabitant encoded at t must decode at t' to a value that strict annotation at t' accepts unchanged, must equal the model's coercion (c02.decode), and decoding via an intermediate supertype must differ from direct decoding only by opt ~ null.",
+        "note": "The theorem is about the model's coercion function (fuel-indexed: the statement allows fuel exhaustion, which arises only for expected types with an opt-only cycle such as type O = opt O). That the Rust decoder implements this coercion is the C02 correspondence. Native Rust types are covered under C08.",
         "props_file": "props/C04.v",
         "shards": (4, 16),
-        "rule": "TODO",
+        "rule": "cases: per round a random environment, 1-3 types with inhabitants, two successive random upgrade steps t -> t1 -> t2 (add/remove optional field, add variant case, nat->int, widen to opt/reserved, generalise arguments, specialise results, near misses); soundness and chain predicates, the model's verdict and coercion, and the typed decode compared with spec_decode. Non-trivial: all (every case has a composite or upgraded type).",
         "assumptions": COMMON_ASSUME,
-        "trusted_base": [],
+        "trusted_base": ['modelled, not verified: binread (header parser driver), serde visitors of IDLValue, HashMap, RecursionDepth/stacker (not modelled), std::str::from_utf8 (modelled by utf8_valid)'],
     },
     "C03": {
-        "claim": "TODO", "note": "TODO",
+        "claim": "What the encoders emit (IDLArgs::to_bytes_with_types and to_bytes) is decoded on every run by the model's specification-level decoder (header grammar with all side conditions: composite-only table, strictly ascending field ids and method names, methods are functions, indices in range; then M^-1) and the decoded argument types (raw table, compared by the proved structural-equality decision eq_dec) and values must equal the inputs (after strict annotation); typed encoding must refuse near-miss values; encoding is repeated to check determinism. Coq theorems (closed): M^-1 inverts M (so 'decodes back' means 'is the spec encoding'), numbers are minimal (S)LEB128, accepted field lists are exactly the strictly ascending ones, eq_dec decides structural type equality.",
+        "note": "Not proved: the serializer's type-table builder (TypeSerialize) against the grammar for all inputs -- differential only. Native values (derive / impls.rs) are covered under C01/C08. Untyped to_bytes is only exercised on values whose vectors are uniform (the encoder infers a vector's type from its first element).",
         "props_file": "props/C03.v",
         "shards": (4, 16),
-        "rule": "TODO",
+        "rule": 'cases: per round a random environment (0-4 definitions, recursion, aliases incl. aliases of primitives, references every 4th round), 1-3 types (a definition name every third time) with inhabitants; typed encoding and its model check; untyped encoding (uniform values); one near-miss mutation (wrong width, missing field, unknown tag, wrong reference kind, nat as int...) that typed encoding must reject. Non-trivial = some value has more than 2 nodes or is a near miss.',
         "assumptions": COMMON_ASSUME,
-        "trusted_base": [],
+        "trusted_base": ['modelled, not verified: binread (header parser driver), serde visitors of IDLValue, HashMap, RecursionDepth/stacker (not modelled), std::str::from_utf8 (modelled by utf8_valid)'],
     },
     "C02": {
-        "claim": "TODO", "note": "TODO",
+        "claim": "The specification-level decoder spec_decode (header grammar with every validation rule incl. replace_empty, M^-1 at the wire types, the coercion relation of spec/Candid.md as a function, the argument-sequence rule) is written in Coq and extracted; Coq theorems (closed, no axioms): M^-1 inverts M at every type for every well-typed value and any trailing input; coercion is well-typed and on well-typed input only yields a value of the expected type, 'no coercion' or fuel exhaustion; coercion at the same type never fails; the reference check inside coercion (sub_dec_fast) decides the co-inductive subtype relation. The implementation's fused decoder is compared with spec_decode through binary_parser::Header (table and argument types), IDLArgs::from_bytes and IDLArgs::from_bytes_with_types on valid messages of random possibly-recursive wire types built by an independent encoder (padded LEBs, unusual table layouts), crossed with identical, upgraded, mutated, unrelated, shorter and longer expected type sequences, on byte-level mutants and on hostile headers.",
+        "note": "Not proved: that the Rust deserializer (de.rs, ~1800 lines, fused decode/coerce with back-tracking) equals spec_decode for all inputs -- this equality is differential only; because spec_decode is exact and its meta-theory proved, every disagreement is a failing input. Limits: element counts above 2*10^6 and nesting beyond the model's fuel are skipped; future-typed values are not modelled; the recursion-depth guard is outside the model.",
         "props_file": "props/C02.v",
         "shards": (4, 16),
-        "rule": "TODO",
+        "rule": "cases: hostile hand-written headers (bad magic/counts/indices/opcodes, unsorted or duplicate fields and methods, non-function methods, annotations, future types, empty-record cycles, principal limits, padded and over-long LEBs, trailing bytes), then per round a random environment of 0-4 definitions, 0-3 argument types with inhabitants, encoded by the harness's own encoder (optionally padded LEBs); decoded untyped, header-only, and at: the same types, 4 definition-wise/argument-wise mutated variants (extra opt/reserved arg, missing arg, extra non-optional arg), unrelated types; plus 6 byte-level mutants each. Non-trivial = non-empty environment / composite value / any expected-type case; distinct = distinct (op, arguments).",
         "assumptions": COMMON_ASSUME,
-        "trusted_base": [],
+        "trusted_base": ['modelled, not verified: binread (header parser driver), serde visitors of IDLValue, HashMap, RecursionDepth/stacker (not modelled), std::str::from_utf8 (modelled by utf8_valid)'],
     },
     "C05": {
         "claim": "Coq theorems (closed, no axioms): the subtype relation is defined co-inductively as the greatest relation closed under ONE "
